@@ -9,9 +9,11 @@ implementation reports, and compared with calcMobilizerReactionForces (articulat
 find* accessors and getGyroscopicForce of every body (Ground included)."""
 import os
 from vlib import *
-import C15
+import C15, C02
 
-PROPS = ['Props/Properties_C14.v']
+PROPS = ['Props/Properties_C14.v', 'Props/Properties_C14b.v']
+# tags of the C02 forward-dynamics model that carry the articulated route P+ (~phi A_parent) + z+ of calcMobilizerReactionForces
+ROUTE_TAGS = ('REACT', 'REACTFB', 'ZP', 'PPLUS', 'FDACC')
 INDEXED = ('GYRO', 'FM', 'FMFB', 'ATM', 'ATO', 'PATO', 'PATF')
 EXTRACT = '''From Coq Require Import Extraction ExtrOcamlBasic.
 Require Import Num Vec Tree MB Spatial C15_Model C14_Model.
@@ -51,6 +53,19 @@ def run(ctx):
             ctx.broken.append(('correspondence:C14:' + x['tag'], 'model and implementation differ on system %d (seed %d) tag %s[%d]: impl=%s model=%s (%d disagreements)' %
                                (x['system'], x['seed'], x['tag'], x['index'], x['impl'], x['model'], len(dis))))
             ctx.extra['first_disagreement'] = x
+    # the route the implementation takes (P+ A+ + z+): modelled on top of the C02 forward-dynamics model (react_art / react_fb in
+    # coq/C02/C02_Model.v), proved equal to the free-body route for every tree (Properties_C14b.v) and compared here with
+    # findMobilizerReactionOnBodyAtOriginInGround and the free-body method on random trees (forces applied by Force::DiscreteForces)
+    d2 = C02.build(ctx)
+    if d2:
+        saved = C02.TOL; keep = ctx.extra.get('correspondence')
+        C02.TOL = {t: v for t, v in saved.items() if t in ROUTE_TAGS}
+        try:
+            C02.correspondence(ctx, d2, *((150, 10) if ctx.tier == 'quick' else (3000, 14)))
+            ctx.extra['correspondence_articulated_route_model'] = ctx.extra.pop('correspondence', None)
+        finally:
+            C02.TOL = saved
+            if keep is not None: ctx.extra['correspondence'] = keep
     ctx.cov['rule'] = ('random simbody trees realized to Acceleration (1..N bodies; chain/star/random branching; 17 mobilizer types x forward/reversed, Weld '
                        'over-represented; quaternion or Euler; gravity, random body forces on any body incl. Ground, random mobility forces; 1/3 with a Rod or '
                        'Ball constraint (flag bit 0), 1/4 with a Sinusoid-prescribed mobilizer (bit 1), 1/5 with a locked mobilizer (bit 2); 1/4 with massless '
@@ -61,8 +76,9 @@ def run(ctx):
                        'non-finite or above 1e5 (singular) are skipped and counted; non-trivial = at least 3 bodies incl. Ground, distinct by '
                        '(vector of (mobilizer type, reversed), massless flag)')
     ctx.assumptions += ['theorems over R; float runs only validate the model against the code',
-                        'the theorems are about the free-body recursion; the implementation\'s main route (P+ A+ + z+ from the articulated-body pass) is tied to it '
-                        'only by the correspondence run and by the implementation-side Newton-Euler residual predicate, not by proof',
+                        'Properties_C14.v is about the free-body recursion; the implementation\'s main route (P+ A+ + z+ from the articulated-body pass) is modelled on the C02 '
+                        'forward-dynamics model (no constraints, no prescribed motion there) and proved equal to the free-body route for every tree in Properties_C14b.v under '
+                        'non-zero elimination pivots of each D block; with constraints / prescribed motion it is tied only by the correspondence run and the implementation-side predicates',
                         'per-body inputs (A_GB, V_GB, mass properties, applied body forces, constraint body forces from the multipliers, frame offsets) are the values '
                         'the implementation reports; that A_GB solves the equations of motion is C02/C08, not C14']
     # the property's own predicate on the implementation alone is cheap: run it always (it is the only tie of the P+ A+ + z+ route besides the correspondence)
